@@ -1,5 +1,6 @@
 import CuqiVerif.Model.Proto
 import CuqiVerif.Model.C08
+import CuqiVerif.Model.C08Adapt
 open CuqiVerif CuqiVerif.Proto CuqiVerif.C08
 
 /-
@@ -7,6 +8,9 @@ open CuqiVerif CuqiVerif.Proto CuqiVerif.C08
     -> acc | x_next | nodes | consumed | j | n | diffs(leaves of last doubling, H'-H0 or `nan`) | margin | logd_next | grad_next
   trace <same arguments as nuts> -> idx:n:n' for every doubling with s'=1 (idx = position of its acceptance draw), or `_`
   leapfrog <eps> <P> <b> <x> <r>  -> x' | r' | grad'
+  adaptexp <log eps0> <mu> <delta> <Nb> <interval> <N> <alphas> <sqrt k> <k^-kappa>  -> log step sizes used | log eps | log eps_bar | H_bar
+  adaptleg <log eps0> <mu> <delta> <Nb> <Nrest> <alphas> <sqrt k> <k^-kappa>          -> same (legacy schedule)
+  findeps <P> <b> <wall> <x> <r> <log2> <fuel> -> epsilon | none
   tree <v> <j> <eps> <P> <b> <wall> <x> <r> <logu> <ham0> <uniforms>
     -> n | s | cand.x | leaves.x (matrix) | nodes | consumed
 -/
@@ -94,6 +98,30 @@ def step : List String → String
       let (tr, rest) := buildTree c v j z0 us
       s!"{tr.n} | {fmtBool tr.s} | {fmtVec tr.cand.x} | {fmtMat (tr.leaves.map (·.x))} | {tr.nodes} | {us.length - rest.length}"
     | _, _, _, _, _, _, _, _, _, _, _ => "bad-op"
+  | ["adaptexp", le0, mu, delta, nb, interval, n, als, sqs, ets] =>
+    match parseRat le0, parseRat mu, parseRat delta, parseNat nb, parseNat interval, parseNat n,
+          parseVec als, parseVec sqs, parseVec ets with
+    | some le0, some mu, some delta, some nb, some interval, some n, some als, some sqs, some ets =>
+      if interval = 0 then "bad-op" else
+      let w := warmupExp (DA.init le0 mu delta) nb interval (fun i => als.getD i 0) (fun k => sqs.getD (k - 1) 0) (fun k => ets.getD (k - 1) 0)
+      let s := if n = 0 then w else sampleExp w n
+      s!"{fmtVec s.used} | {fmtRat s.lEps} | {match s.lBar with | some b => fmtRat b | none => "unset"} | {fmtRat s.hBar}"
+    | _, _, _, _, _, _, _, _, _ => "bad-op"
+  | ["adaptleg", le0, mu, delta, nb, nrest, als, sqs, ets] =>
+    match parseRat le0, parseRat mu, parseRat delta, parseNat nb, parseNat nrest,
+          parseVec als, parseVec sqs, parseVec ets with
+    | some le0, some mu, some delta, some nb, some nrest, some als, some sqs, some ets =>
+      let s := runLeg (DA.init le0 mu delta) nb nrest (fun k => als.getD (k - 1) 0) (fun k => sqs.getD (k - 1) 0) (fun k => ets.getD (k - 1) 0)
+      s!"{fmtVec s.used} | {fmtRat s.lEps} | {match s.lBar with | some b => fmtRat b | none => "unset"} | {fmtRat s.hBar}"
+    | _, _, _, _, _, _, _, _ => "bad-op"
+  | ["findeps", P, b, wall, x, r, log2, fuel] =>
+    match parseMat P, parseVec b, parseWall wall, parseVec x, parseVec r, parseRat log2, parseNat fuel with
+    | some P, some b, some wall, some x, some r, some log2, some fuel =>
+      let t : Target := { P := P, b := b, wall := wall.1, wallVal := wall.2 }
+      match findEps t x r log2 fuel with
+      | some e => fmtRat e
+      | none => "none"
+    | _, _, _, _, _, _, _ => "bad-op"
   | _ => "bad-op"
 
 def main : IO Unit := runDriver step
